@@ -30,6 +30,9 @@ type c03Case struct {
 	// map already carries CORS headers and Vary from an outer layer (c03Outer) when the middleware runs - what the
 	// middleware leaves exactly as the outer layer set it is the outer layer's business, everything else is judged
 	Mode int `json:"mode,omitempty"`
+	// Traffic > 0: the request under test is number Traffic of the long traffic sequence (suite.go), served after all
+	// the earlier ones on the same middleware
+	Traffic int `json:"traffic_position,omitempty"`
 }
 
 var safelistedResponseHeaders = map[string]bool{"cache-control": true, "content-language": true, "content-length": true, "content-type": true, "expires": true, "last-modified": true, "pragma": true}
@@ -172,6 +175,10 @@ func c03Serve(h http.Handler, mode int, req vlib.Req, rec *vlib.Rec) (http.Heade
 	return judged, rec.Status
 }
 
+func c03Traffic() []vlib.Req {
+	return trafficSequence(300, "https://t%d.a.b", "https://t%d.xa.b")
+}
+
 func c03Judge(k c03Case) *vlib.Failure {
 	first := k.Cfg
 	if k.Prev != nil {
@@ -211,6 +218,11 @@ func c03Judge(k c03Case) *vlib.Failure {
 	h := m.Wrap(http.HandlerFunc(func(http.ResponseWriter, *http.Request) {}))
 	if k.Mode == 1 {
 		h = m.Wrap(h)
+	}
+	if k.Traffic > 0 {
+		for _, r := range c03Traffic()[:k.Traffic-1] {
+			h.ServeHTTP(vlib.NewRec(), r.HTTP())
+		}
 	}
 	hdrs, status := c03Serve(h, k.Mode, k.Req, rec)
 	if rec.WroteN > 1 && k.Mode != 1 {
@@ -429,6 +441,50 @@ func checkC03(c *vlib.Ctx) (string, string) {
 	})
 	c.States.Add(int64(len(splices)))
 	c.Set("spliced_hosts", len(splices))
+	// long traffic on one middleware per configuration and debug mode (300 distinct allowed origins, 300 near
+	// misses, each coming back at several distances): every answer satisfies the same invariants
+	traffic := c03Traffic()
+	c.ParRange(int64(2*len(bs)), 1, "C03 long traffic", func(i int64) {
+		l, d := bs[i/2].lit, int(i%2)
+		cfg0 := l.Config()
+		m, err := cors.NewMiddleware(cfg0)
+		if err != nil {
+			return
+		}
+		m.SetDebug(d == 1)
+		h := m.Wrap(http.HandlerFunc(func(http.ResponseWriter, *http.Request) {}))
+		rec := vlib.NewRec()
+		for ti, r := range traffic {
+			rec.Reset()
+			h.ServeHTTP(rec, r.HTTP())
+			c.Transitions.Add(1)
+			if f := c03Invariants(l, r, rec.H, rec.Status); f != nil {
+				k := c03Case{Cfg: l, Debug: d == 1, Req: r, Traffic: ti + 1}
+				if jf := vlib.Guard(func() *vlib.Failure { return c03Judge(k) }); jf != nil {
+					ck.Report(k, jf)
+				} else {
+					vlib.HarnessError("traffic pass and judge disagree on %+v: %s", k, f.Detail)
+				}
+				return
+			}
+		}
+	})
+	c.Set("traffic_requests_per_middleware", len(traffic))
+	// dictionary pass: requests of every shape with one more header that browsers, proxies or frameworks really send
+	// (the invariants do not depend on it)
+	var dictReqs []vlib.Req
+	for _, v := range []string{"https://a.b", "https://x.a.b", "https://b.a:8080", "https://evil.b", "http://1.2.3.4", "null", "https://api.ample.com"} {
+		for _, r := range shapes(v)[:4] {
+			for _, e := range requestHeaderDictionary {
+				dictReqs = append(dictReqs, withDictionaryHeader(r, e))
+			}
+		}
+	}
+	c.ParRange(int64(len(dictReqs)), 64, "C03 dictionary headers", func(i int64) {
+		try(vlib.NewRec(), dictReqs[i])
+	})
+	c.States.Add(int64(len(dictReqs)))
+	c.Set("dictionary_requests", len(dictReqs))
 	// (B) request-shape-focused
 	reps := []string{"https://a.b", "https://x.a.b", "https://b.a:8080", "http://1.2.3.4", "http://[::1]", "ab://c", "https://xa.b", "https://a.b:8443", "http://a.b", "https://a.b.evil", "null", "https://a.b/", "https://[a.b]", "", "garbage", "https://A.B"}
 	methods := []string{"GET", "OPTIONS", "PUT", "get", "options", "HEAD"}
